@@ -93,6 +93,26 @@ type fltEntry struct {
 	lo, hi int64
 }
 
+// fltPanicValue: what a scripted panic carries. A panic is a failure whatever its value — a string, a plain error, an
+// error wrapping context.Canceled, a RequeueError (with or without an error inside): the recover handlers format
+// the value into a new error, they must not let it pass as a classified error.
+var fltPanicSeq atomic.Int64
+
+func fltPanicValue() any {
+	switch fltPanicSeq.Add(1) % 5 {
+	case 0:
+		return "scripted panic"
+	case 1:
+		return errFltScripted
+	case 2:
+		return fmt.Errorf("scripted panic: %w", context.Canceled)
+	case 3:
+		return controller.NewRequeueInterval(time.Hour)
+	default:
+		return controller.NewRequeueError(errFltScripted, 0)
+	}
+}
+
 func fltFailing(o string) bool { return o == "error" || o == "panic" || o == "errw" || o == "errz" }
 
 // fltFailingK: is the outcome a failure of a stream of this kind, by the property? For a task an error that wraps
@@ -297,7 +317,7 @@ func (p *fltR) Run(ctx context.Context, r controller.Runtime, _ *zap.Logger) err
 		case "error", "errw":
 			return errFltScripted
 		case "panic":
-			panic("scripted panic")
+			panic(fltPanicValue())
 		case "finish":
 			return nil
 		case "canceled":
@@ -367,7 +387,7 @@ func fltLoopOutcome(ctx context.Context, e fltEntry) error {
 			return nil
 		}
 
-		panic("scripted panic")
+		panic(fltPanicValue())
 	case "canceled":
 		fltSleep(ctx, e.dur)
 
@@ -405,7 +425,7 @@ func (p *fltQ) Reconcile(ctx context.Context, _ *zap.Logger, r controller.QRunti
 	case "errz":
 		return controller.NewRequeueError(errFltScripted, 0)
 	case "panic":
-		panic("scripted panic")
+		panic(fltPanicValue())
 	case "canceled":
 		return fmt.Errorf("scripted sub-request: %w", context.Canceled)
 	}
@@ -423,7 +443,7 @@ func (p *fltQ) MapInput(ctx context.Context, _ *zap.Logger, r controller.QRuntim
 	case "errz":
 		return nil, controller.NewRequeueError(errFltScripted, 0)
 	case "panic":
-		panic("scripted panic")
+		panic(fltPanicValue())
 	}
 
 	p.w.put("q1/a")
@@ -984,6 +1004,8 @@ func fltScriptEntry(s *fltStream, e fltEntry) (fltEntry, string) {
 // execFaults runs one case; emit is called once per op line, in order (the `end` line
 // only after the bubble has been left, because it carries the leak verdict).
 func execFaults(t *testing.T, c Case, emit func(string)) {
+	fltPanicSeq.Store(0) // the sequence of panic values is a function of the case alone
+
 	_, hd := ParseLine(strings.TrimPrefix(c.Header, "#"))
 	cfg := fltParseCfg(hd)
 
